@@ -189,17 +189,7 @@ Proof.
 Qed.
 
 (* ---------------------------------------------------------------- buildProperty on the supported subset *)
-(* what the codec has no factory for: arrays / maps whose items are any-typed, maps or arrays
-   (google.protobuf.Struct reads as a map of any), and a map schema on a field that is not a map *)
-Definition item_ok (it : fschema) : bool :=
-  match it with FAny _ _ _ | FMap _ _ _ | FArray _ _ _ => false | _ => true end.
-Definition supported_b (s : fschema) (f : field) : bool :=
-  match s with
-  | FArray it _ _ => item_ok it
-  | FMap it _ _ => (match f_card f with CMap _ => true | _ => false end) && item_ok it
-  | _ => true
-  end.
-
+(* factory_b / supported_b: model/ReflectSpec.v *)
 Hypothesis Hcp : forall k0 r0, lookup S k0 = Some (Linked r0) -> exists out, client_props_of S r0 = Ok out.
 
 Lemma leaf_ok s f item :
@@ -267,7 +257,7 @@ Proof.
 Qed.
 
 Lemma build_property_shape p f :
-  shape_b D (p_schema p) f false = true -> refs_linked (p_schema p) -> supported_b (p_schema p) f = true ->
+  shape_b D (p_schema p) f false = true -> refs_linked (p_schema p) -> factory_b (p_schema p) f = true ->
   build_property D S p f = Ok tt.
 Proof.
   intros Hs Hrl Hsup. unfold build_property.
@@ -278,11 +268,11 @@ Proof.
   - cbn [mutable]. eapply msg_ok; eauto; try exact I.
   - cbn [mutable]. eapply msg_ok; eauto; try exact I.
   - (* map *)
-    cbn [supported_b] in Hsup. apply andb_prop in Hsup as [Hc Hit]. cbn [shape_b] in Hs.
+    cbn [factory_b] in Hsup. apply andb_prop in Hsup as [Hc Hit]. cbn [shape_b] in Hs.
     destruct (f_card f) as [| | |kk]; try discriminate Hc.
     apply (proj2 (item_property_ok it f Hs Hrl Hit)).
   - (* array *)
-    cbn [supported_b] in Hsup. cbn [shape_b] in Hs. apply andb_prop in Hs as [Hc Hs]. apply andb_prop in Hc as [_ Hc].
+    cbn [factory_b] in Hsup. cbn [shape_b] in Hs. apply andb_prop in Hs as [Hc Hs]. apply andb_prop in Hc as [_ Hc].
     destruct (f_card f) as [| | |kk]; try discriminate Hc.
     apply (proj1 (item_property_ok it f Hs Hrl Hsup)).
 Qed.
@@ -372,17 +362,17 @@ Proof.
 Qed.
 
 (* C18, last clause, for a message all of whose client properties the codec has a factory for *)
-Theorem codec_usable m r pfs :
+Theorem codec_usable_sw sw m r pfs :
   In m (d_msgs D) -> lookup S (msg_key m) = Some (Linked r) ->
   new_prop_set D S r m = Ok pfs ->
   (forall q f, In (q, Some f) pfs -> supported_b (p_schema q) f = true) ->
   (forall q k n d ops opfs p2 f2, In (q, None) pfs -> p_schema q = FOneof k None None None ->
      lookup S k = Some (Linked (ROneof n d ops)) -> new_prop_set D S (ROneof n d ops) m = Ok opfs ->
      In (p2, Some f2) opfs -> supported_b (p_schema p2) f2 = true) ->
-  codec_classes D S m r = (0%N, 0%N).
+  codec_classes_sw D sw S m r = (0%N, 0%N).
 Proof.
-  intros Hm Hl Hnp Hsup1 Hsup2. unfold codec_classes. rewrite Hnp. f_equal.
-  apply (fold_worst_zero (fun pf => prop_class D S m (last_named pfs pf))). intros pf0 Hpf0.
+  intros Hm Hl Hnp Hsup1 Hsup2. unfold codec_classes_sw. rewrite Hnp. f_equal.
+  apply (fold_worst_zero (fun pf => prop_class_sw D sw S m (last_named pfs pf))). intros pf0 Hpf0.
   pose proof (last_named_in pfs pf0 Hpf0) as Hin. destruct (last_named pfs pf0) as [q fo]. clear pf0 Hpf0.
   (* where (q, fo) comes from *)
   rewrite new_prop_set_unfold in Hnp. destruct (Hcp _ _ Hl) as (out & Hout). rewrite Hout in Hnp. cbn [obind] in Hnp.
@@ -406,9 +396,9 @@ Proof.
       exists fo1. repeat split; try assumption; try apply C. apply (root_props_linked _ _ Hl). exact Hq.
     - inversion Hout; subst out. destruct Hq. }
   destruct Hcls as (fo' & Hres' & Hok & _ & Hrl). rewrite Hres in Hres'. inversion Hres'; subst fo'. clear Hres'.
-  unfold prop_class. destruct fo as [f|].
+  unfold prop_class_sw. destruct fo as [f|].
   - destruct Hok as [Hs|(k & m2 & Hsk & Hvm & Hm2 & Hek)].
-    + rewrite (build_property_shape q f Hs Hrl (Hsup1 q f Hin)). reflexivity.
+    + rewrite (build_property_shape q f Hs Hrl (proj1 (andb_prop _ _ (Hsup1 q f Hin)))). reflexivity.
     + (* the property of an oneof exposed by a flattened message *)
       unfold build_property. rewrite Hsk. cbn [mutable message_factory].
       destruct (Hrl k) as (r' & Hlk); [rewrite Hsk; left; reflexivity|]. rewrite Hlk.
@@ -422,11 +412,11 @@ Proof.
     rewrite Ho.
     apply (fold_worst_zero (fun q2 : prop * option field =>
              match q2 with
-             | (p2, Some f2) => let c := cls (build_property D S p2 f2) in if N.eqb c 1 then 0%N else c
+             | (p2, Some f2) => let c := cls (build_property D S p2 f2) in if sw && N.eqb c 1 then 0%N else c
              | (_, None) => 0%N
              end)).
     intros [p2 fo2] Hin2. destruct (Hshape p2 fo2 Hin2) as (f2 & -> & Hs2 & Hrl2).
-    rewrite (build_property_shape p2 f2 Hs2 Hrl2 (Hsup2 q k n d ops opfs p2 f2 Hin Hsk Hlk Ho Hin2)). reflexivity.
+    rewrite (build_property_shape p2 f2 Hs2 Hrl2 (proj1 (andb_prop _ _ (Hsup2 q k n d ops opfs p2 f2 Hin Hsk Hlk Ho Hin2)))). cbn. rewrite andb_false_r. reflexivity.
 Qed.
 
 End Codec.
@@ -470,12 +460,14 @@ Theorem reflect_codec_usable D fs S :
   (forall q k n d ops opfs p2 f2, In (q, None) pfs -> p_schema q = FOneof k None None None ->
      lookup S k = Some (Linked (ROneof n d ops)) -> new_prop_set D S (ROneof n d ops) m = Ok opfs ->
      In (p2, Some f2) opfs -> supported_b (p_schema p2) f2 = true) ->
-  codec_classes D S m r = (0%N, 0%N).
+  codec_classes D S m r = (0%N, 0%N) /\ codec_classes_strict D S m r = (0%N, 0%N).
 Proof.
   intros Hwk Hnum HS m r pfs Hm Hl Hnp H1 H2.
   pose proof (reflect_final D Hwk fs) as Hfin. rewrite HS in Hfin. destruct Hfin as [(HI & _ & _) _].
-  apply (codec_usable D Hwk Hnum S (reflect_origin D fs S HS) HI (reflect_closed D fs S Hwk HS)
-           (fun k0 r0 Hl0 => reflect_client_props_terminate D fs S Hwk HS k0 r0 Hl0) m r pfs Hm Hl Hnp H1 H2).
+  split; [apply (codec_usable_sw D Hwk Hnum S (reflect_origin D fs S HS) HI (reflect_closed D fs S Hwk HS)
+           (fun k0 r0 Hl0 => reflect_client_props_terminate D fs S Hwk HS k0 r0 Hl0) true m r pfs Hm Hl Hnp H1 H2)
+         |apply (codec_usable_sw D Hwk Hnum S (reflect_origin D fs S HS) HI (reflect_closed D fs S Hwk HS)
+           (fun k0 r0 Hl0 => reflect_client_props_terminate D fs S Hwk HS k0 r0 Hl0) false m r pfs Hm Hl Hnp H1 H2)].
 Qed.
 
 (* every clause of C18 at once, for descriptor sets satisfying wf_paths *)
@@ -490,9 +482,9 @@ Theorem reflect_full_on_supported D fs :
          (forall q k n d ops opfs p2 f2, In (q, None) pfs -> p_schema q = FOneof k None None None ->
             lookup S k = Some (Linked (ROneof n d ops)) -> new_prop_set D S (ROneof n d ops) m = Ok opfs ->
             In (p2, Some f2) opfs -> supported_b (p_schema p2) f2 = true) ->
-         codec_classes D S m r = (0%N, 0%N)).
+         codec_classes D S m r = (0%N, 0%N) /\ codec_classes_strict D S m r = (0%N, 0%N)).
 Proof.
-  intros Hwp. pose proof Hwp as [[Hwk Hj] Hnum].
+  intros Hwp. pose proof Hwp as [Hwk Hnum].
   destruct (reflect_total D (wf_desc_total D Hwk) fs) as [Hp Hf].
   split; [exact Hp|]. split; [exact Hf|]. intros S HS.
   split; [apply (reflect_consistent D fs S Hwp HS)|].
